@@ -19,11 +19,16 @@
      leading stream (one group per real segment) has a sync sample at the head of every non-empty group;
      the proof goes through "the look-ahead unit is the first sample of a freshly opened segment" and
      "the first accepted unit of a video track is random access" (the gate the AV1 fix 78859ca restored).
-   Not theorems (tie + oracle): for MPEG-TS, that a segment's first unit is the IDR (the cut theorem
-   gives: a cut happens only at a random-access unit and the unit is written after the cut) and that
-   PAT / PMT open each segment; that the served bytes decode to the model's samples. *)
+   - MPEG-TS (c02_mpegts_segments_start_with_random_access): in every state reachable from Start by successful
+     writes, every segment of the stream - evicted, listed or open - is non-empty and its first unit is a
+     random-access unit of a leading track (the H264 track when there is one: every video track is leading);
+     the proof goes through the grouped log (one group per segment): a rotation or the creation of the first
+     segment appends an empty group, the segment writer appends to the last group, and a whole write opens a
+     group only together with a random-access unit (cut condition / first-random-access gate).
+   Not theorems (tie + oracle): for MPEG-TS that PAT / PMT open each segment (written by mediacommon's
+   writer, outside the model); that the served bytes decode to the model's samples / units. *)
 From Coq Require Import List ZArith Bool.
-From GoHls Require Import Model.Mux Proofs.MuxStream Proofs.MuxLift Proofs.MuxWindow Proofs.MuxHistory Proofs.MuxSamples Proofs.MuxCut Proofs.MuxLog Proofs.MuxLogStep Proofs.MuxGroups Proofs.MuxRAStart Proofs.MuxRAHist.
+From GoHls Require Import Model.Mux Proofs.MuxStream Proofs.MuxLift Proofs.MuxWindow Proofs.MuxHistory Proofs.MuxSamples Proofs.MuxCut Proofs.MuxLog Proofs.MuxLogStep Proofs.MuxGroups Proofs.MuxRAStart Proofs.MuxRAHist Proofs.MuxLogTS Proofs.MuxTSStart.
 Import ListNotations.
 Local Open Scope Z_scope.
 
@@ -139,3 +144,20 @@ Theorem c02_segments_start_nonvacuous : exists m0,
      = [[(11, false); (12, true)]].
 Proof. exact ra_example. Qed.
 Print Assumptions c02_segments_start_nonvacuous.
+
+(* ---- every segment begins with a random-access unit of the leading track (MPEG-TS) ---- *)
+Theorem c02_mpegts_segments_start_with_random_access : forall c m0 ops,
+  start c = Ok m0 -> c_variant c = MPEGTS -> all_ok m0 ops ->
+  let m := mux_run m0 ops in
+  Forall (fun g => exists u rest t, g = u :: rest /\ u_ra u = true
+                                    /\ nth_error (m_tracks m) (u_track u) = Some t /\ tk_leading t = true) (tsg m).
+Proof. exact ts_segments_start_with_random_access. Qed.
+Print Assumptions c02_mpegts_segments_start_with_random_access.
+
+Theorem c02_mpegts_segments_start_nonvacuous : exists m0,
+  start ts_cfg = Ok m0 /\ c_variant ts_cfg = MPEGTS /\ all_ok m0 ts_ops
+  /\ map (map (fun u => (u_track u, u_ra u, u_dts u))) (tsg (mux_run m0 ts_ops))
+     = [[(0%nat, true, 45000); (1%nat, true, 45000); (0%nat, false, 90000)];
+        [(0%nat, true, 135000); (1%nat, true, 90000); (0%nat, false, 180000)]].
+Proof. exact ts_ra_example. Qed.
+Print Assumptions c02_mpegts_segments_start_nonvacuous.
